@@ -403,7 +403,7 @@ func runC19(c *kit.Ctx) {
 			}
 			for _, call := range kit.Calls(fn, hrpcRC+"QueueRPC", hrpcRC+"QueueBatch") {
 				named := enclosingNamed(fn)
-				switch named.Name() {
+				switch kit.KnownName(named) {
 				case "sendBlocking":
 					c.OK(fn, "queue-site", call.Pos(), "sendBlocking: callers checked below")
 				case "SendBatch":
@@ -417,7 +417,7 @@ func runC19(c *kit.Ctx) {
 		}
 		for _, s := range callersOf(p, kit.M("", "", "sendBlocking")) {
 			fn := s.Parent()
-			switch fn.Name() {
+			switch kit.KnownName(fn) {
 			case "sendRPCToRegionClient":
 				for _, s2 := range callersOf(p, kit.M("", "*client", "sendRPCToRegionClient")) {
 					g := kit.Calls(s2.Parent(), kit.M("", "*client", "getRegionAndClientForRPC"))
